@@ -1,6 +1,7 @@
 """C11 — an expression has one value, whichever way the caller asks for it (design/C11.md).
 
-translators:    translate/c11_dispatch.py (six executeMore switches + EP overloads), c11_token.py (XToken members, static and
+translators:    translate/c11_dispatch.py (six executeMore switches + EP overloads), c11_prologue.py (guards of every public execute
+                overload), c13_sites.py (C13's: DOMServices string-value funnel), c11_token.py (XToken members, static and
                 virtual conversions), c11_caches.py (memo members of recycled XObjects), c11_callers.py (execute overload per
                 XSLT caller) -> lean/XalanModel/Generated/C11_*.lean, regenerated from the working tree on every run
 proof:          lean/XalanModel/Props/C11.lean over the regenerated tables (decide over the complete finite tables, lifted to
@@ -21,9 +22,10 @@ from vlib.common import Rng
 
 CLAIMED = True
 LEVEL = "proof"
-TECHNIQUE = ("Lean 4 proof over models regenerated from the source on every run by four translators (the six XPath::executeMore "
-             "switches and the overloads they call; XToken members and the static/virtual conversion helpers; the memo members of "
-             "recycled XObjects; the execute overload each XSLT caller uses): coherence decided over the complete finite tables "
+TECHNIQUE = ("Lean 4 proof over models regenerated from the source on every run by five translators of its own and one shared with C13 (the six "
+             "XPath::executeMore switches and the overloads they call; the prologue of every public execute overload; XToken "
+             "members and the static/virtual conversion helpers; the memo members of recycled XObjects; the execute overload each "
+             "XSLT caller uses; DOMServices' string-value funnel): coherence decided over the complete finite tables "
              "and lifted to all expressions by mutual structural induction; plus a correspondence run of the six public "
              "XPath::execute overloads on one persistent execution context and of the same expressions through a stylesheet")
 LEVEL_TEXT = ("Machine-checked over tables regenerated from XPath.cpp/XPath.hpp/XToken/XObject*/XObjectFactoryDefault/XSLT callers: "
@@ -34,9 +36,12 @@ LEVEL_TEXT = ("Machine-checked over tables regenerated from XPath.cpp/XPath.hpp/
               "(caller_observes_standard_conversion); literal tokens answer the standard conversions of the value they denote "
               "(token_*); the conversion helpers are the specified ones (static_conversions_as_specified); a recycled XObject "
               "answers like a fresh one iff set() clears every memo member, and it does (recycled_*); event chunking is immaterial "
-              "(chars_chunking_admissible). Each run re-evaluates the property itself on ~3 700 (thorough ~21 000) generated and "
-              "boundary cases through the six real entry points and through xsl:if/when, AVT, value-of, xsl:number, for-each, sort.")
-LEVEL_NOTE = ("Trusted: Lean kernel; axioms propext/Quot.sound only; the four translators (regex normalisation by exact match; "
+              "(chars_chunking_admissible); all public execute overloads of a family set up the evaluation identically, current node "
+              "included (entry_points_same_prologue), and both string-value recursions of DOMServices hand the execution context on "
+              "(string_value_funnel_passes_context). Each run re-evaluates the property itself on ~4 800 (thorough ~25 000) generated, boundary and focus "
+              "cases through the six real entry points (current node != context node; strip-space active on a whitespace document) "
+              "and through xsl:if/when, AVT, value-of, xsl:number, for-each, sort (number and text).")
+LEVEL_NOTE = ("Trusted: Lean kernel; axioms propext/Quot.sound only; the translators (regex normalisation by exact match; "
               "anything unrecognised becomes `.other`, never coherent); the hand transcription of the helpers' operand entry "
               "points (XPath::Or/And/comparisons/arithmetic/function*), validated by running the table-driven Lean interpreter "
               "against the real entry points (bounded by generator coverage); harness, generators and the python predicate. "
@@ -53,6 +58,8 @@ THEOREMS = [
     "XalanModel.Props.C11.dispatch_sound",
     "XalanModel.Props.C11.eval_ep_eq_conv_eval",
     "XalanModel.Props.C11.chars_chunking_admissible",
+    "XalanModel.Props.C11.entry_points_same_prologue",
+    "XalanModel.Props.C11.string_value_funnel_passes_context",
     "XalanModel.Props.C11.callers_entry_points",
     "XalanModel.Props.C11.caller_observes_standard_conversion",
     "XalanModel.Props.C11.token_coherent",
@@ -133,14 +140,14 @@ NODESET_ARG = ("count", "name1", "lname1", "sum")
 ARITH = {"plus": "add", "minus": "sub", "mult": "mul", "div": "div", "mod": "mod"}
 UN = {"neg": "neg", "floor": "floor", "ceiling": "ceil", "round": "round"}
 
-PATHS = ["//p:*", "//@p:*", "//*[last()]", "//@*[last()]", "//a", "r/b", "@a", ".", "..", "//zzz", "//a[2]", "*", "//text()", "//@*", "$ns[2]", "(//a)[1]", "//c/..",
+PATHS = ["current()/@a", "current()/*", "current()/..", "current()/@a | @id", "//p:*", "//@p:*", "//*[last()]", "//@*[last()]", "//a", "r/b", "@a", ".", "..", "//zzz", "//a[2]", "*", "//text()", "//@*", "$ns[2]", "(//a)[1]", "//c/..",
          "descendant::a[last()]", "//e", "following-sibling::*", "$ns[. > 1]"]
 NPATHS_EMPTYISH = ["//zzz", "$ne"]
 VARS = ["t", "f", "n0", "n", "nan", "s", "e", "sn", "ns", "ne", "inf", "rt", "re", "rtx"]
 NS_VARS = ["ns", "ne"]
 LITS = ["abc", "", "12", " 7 ", "0", "NaN", "-3.5", "x y", "true", "é中"]
 NUMS = ["0", "1", "12", "2.5", "0.5", "1000000", "3", "7", "0.25", "100"]
-FNS = [("concat(%s, %s)", 2), ("string(%s)", 1), ("substring(%s, 2)", 1), ("normalize-space(%s)", 1),
+FNS = [("current()", 0), ("concat(current(), %s)", 1), ("concat(%s, %s)", 2), ("string(%s)", 1), ("substring(%s, 2)", 1), ("normalize-space(%s)", 1),
        ("translate(%s, 'abc', 'xyz')", 1), ("starts-with(%s, 'a')", 1), ("contains(%s, '1')", 1),
        ("substring-before(%s, 'c')", 1), ("id(%s)", 1), ("lang('en')", 0), ("string()", 0), ("namespace-uri()", 0),
        ("concat(%s, %s, %s, %s)", 4), ("substring(%s, 1, 2)", 1)]
@@ -285,6 +292,19 @@ DOCS = [
     '<r%s a="5" id="i0"><a id="i1">1</a><b>x<c>y</c>z</b><a id="i2">2</a><e/><a>3.5</a><d xml:lang="en">  7 </d><p:q p:w="4">8</p:q></r>' % NSDECL,
     '<r%s><a>12</a><a>abc</a><b a="0">0</b><c/><p:a p:a="1">x<p:b/>y</p:a></r>' % NSDECL,
 ]
+# whitespace-only text at depths 1..3; evaluated with strip-space active (API: `strip 1`; stylesheet: xsl:strip-space elements="*")
+WS_DOC = ('<r%s a="5">\n <a id="i1" a="1">\n  <b> <c> Ada </c>\n   <c>Lovelace</c> </b>\n  <d> 42 </d>\n </a>\n <b>x<c> <e> </e>y</c> z</b>\n'
+          ' <a a="2"> <b> <c> </c> </b> 7</a>\n <p:q p:w="4"> <a>3</a> </p:q>\n</r>' % NSDECL)
+DOCS.append(WS_DOC)
+STRIP_DOCS = {WS_DOC}
+SHEET_DOCS = [DOCS[0], WS_DOC]
+
+
+def prelude(doc):
+    """request lines that open a session on `doc`"""
+    return ["doc " + hx8(doc)] + (["strip 1"] if doc in STRIP_DOCS else []) + VAR_LINES
+
+
 CTXS = [("/", 0), ("//a", 0), ("//a", 1), ("/r/*", 2), ("//@*", 0), ("//text()", 0), ("//*", 3), ("//p:*", 0), ("//@p:*", 0)]
 BUFS = ["", "PRE", "x{"]
 VAR_LINES = ["var t b 1", "var f b 0", "var n0 n 0", "var n n 2.5", "var nan n NaN", "var s s " + hx8("abc"), "var e s -",
@@ -400,9 +420,8 @@ def minimise_history(hexe, doc, history, case_lines, buf):
     def fails(hist):
         H = Harness(hexe)
         try:
-            H.ask("doc " + hx8(doc))
-            for vl in VAR_LINES:
-                H.ask(vl)
+            for pl in prelude(doc):
+                H.ask(pl)
             reps = H.ask_many(hist + case_lines)
         finally:
             H.close()
@@ -549,6 +568,8 @@ def run_cases(ctx, hexe, mexe, cases, side, tag):
                 r = H.ask("doc " + hx8(doc))
                 if not r.startswith("doc "):
                     raise RuntimeError("harness could not parse document: " + r)
+                if doc in STRIP_DOCS:
+                    H.ask("strip 1")
                 nodeinfo = H.nodes()
                 for vl in VAR_LINES:
                     H.ask(vl)
@@ -577,8 +598,8 @@ def run_cases(ctx, hexe, mexe, cases, side, tag):
             stats["cases"] += 1
             bad = predicate(d, buf)
             g = d.get("G", "E")
-            if doc == DOCS[0]:
-                stats.setdefault("api", []).append((cx, k, buf, e.src, d))
+            if doc in SHEET_DOCS:
+                stats.setdefault("api", {}).setdefault(doc, []).append((cx, k, buf, e.src, d))
             cls = "top:%s" % opname
             nontriv = (e.src, cx, k, buf) if (g not in ("E", "u")) else None
             ctx.case(nontrivial_key=nontriv, sample=inp if stats["cases"] in (3, 40, 200) else None, cls=cls)
@@ -820,15 +841,19 @@ def boundary_cases(thorough):
 SHEET_VARS = [("t", "true()"), ("f", "false()"), ("n0", "0"), ("n", "2.5"), ("nan", "number('NaN')"), ("s", "'abc'"), ("e", "''"),
               ("sn", "'12'"), ("ns", "//a"), ("ne", "//zzz"), ("inf", "1 div 0")]
 SHEET_RTFS = [("rt", "12"), ("re", None), ("rtx", "abc")]
-SORT_KEYS = [".", "@a", "string-length()", "count(*)", "number()", "string-length(name())", "- .", "count(.//*) * 2", "'7'", "3",
+TEXT_SORT_KEYS = ["local-name(current())", "local-name()", "translate(concat(local-name(current()), count(current()/*)), ' ', '')",
+                  "substring(local-name(), 1, 1)"]
+SORT_KEYS = ["current()/@a", "count(current()/*)", "string-length(current())", "current()/@p:w + 1", "string-length(.)", ".", "@a", "string-length()", "count(*)", "number()", "string-length(name())", "- .", "count(.//*) * 2", "'7'", "3",
              "$n", "$rt", "(.)", "0.0", "$nan", "@id", "$ns", "count(//a) - string-length()"]
 
 
-def sheet_text(cases, sort_keys):
+def sheet_text(cases, sort_keys, strip=False):
     from xml.sax.saxutils import quoteattr
     L = ['<?xml version="1.0" encoding="UTF-8"?>',
          '<xsl:stylesheet version="1.0" xmlns:xsl="http://www.w3.org/1999/XSL/Transform" xmlns:p="urn:p" xmlns:c11="urn:c11-ext" '
          'exclude-result-prefixes="p c11">', '<xsl:output method="xml" encoding="UTF-8"/>']
+    if strip:
+        L.append('<xsl:strip-space elements="*"/>')
     for n, e in SHEET_VARS:
         L.append('<xsl:variable name="%s" select=%s/>' % (n, quoteattr(e)))
     for n, t in SHEET_RTFS:
@@ -854,16 +879,20 @@ def sheet_text(cases, sort_keys):
         q = quoteattr(key)
         L.append('<sort i="%d"><xsl:for-each select="//*"><xsl:sort select=%s data-type="number"/>'
                  '<k><xsl:value-of select="number(%s)"/></k></xsl:for-each></sort>' % (i, q, key.replace("&", "&amp;").replace("<", "&lt;").replace('"', "&quot;")))
+    if sort_keys:
+        for i, key in enumerate(TEXT_SORT_KEYS):
+            L.append('<tsort i="%d"><xsl:for-each select="//*"><xsl:sort select=%s data-type="text"/>'
+                     '<k><xsl:value-of select=%s/></k></xsl:for-each></tsort>' % (i, quoteattr(key), quoteattr(key)))
     L.append('</out></xsl:template></xsl:stylesheet>')
     return "\n".join(L)
 
 
-def run_sheet(cli, work, doc, cases, sort_keys, tag):
+def run_sheet(cli, work, doc, cases, sort_keys, tag, strip=None):
     import xml.etree.ElementTree as ET
     dp = os.path.join(work, "c11_%s.xml" % tag)
     sp = os.path.join(work, "c11_%s.xsl" % tag)
     open(dp, "w", encoding="utf-8").write(doc)
-    open(sp, "w", encoding="utf-8").write(sheet_text(cases, sort_keys))
+    open(sp, "w", encoding="utf-8").write(sheet_text(cases, sort_keys, doc in STRIP_DOCS if strip is None else strip))
     p = subprocess.run([cli, dp, sp], stdout=subprocess.PIPE, stderr=subprocess.PIPE, timeout=600)
     if p.returncode != 0:
         return None, p.stderr.decode("utf-8", "replace")[-600:]
@@ -957,6 +986,16 @@ def stylesheet_stream(ctx, api_cases, doc, limit):
                 ctx.fail("sheet-disagree[%s]: %s @%s[%d]" % (caller, case[3], case[0], case[1]), what, inp)
             for x in cross:
                 st["cross"].append({"case": case, "diff": x})
+        for s in root.findall("tsort"):
+            vals = [(kx.text or "") for kx in s.findall("k")]
+            st["sort"] += 1
+            # keys are lower-case ASCII letters/digits only: any collation orders them alphabetically
+            if any(b.lower() < a.lower() for a, b in zip(vals, vals[1:])):
+                key = TEXT_SORT_KEYS[int(s.get("i"))]
+                st["sort_bad"].append({"key": key, "order": vals})
+                ctx.fail("sheet-disagree[NodeSorter]: xsl:sort select=%s data-type=text" % key,
+                         "nodes come out in an order that is not ascending in string(key): %s" % vals[:20],
+                         {"sheet": True, "doc": doc, "sort_key": key, "text": True})
         for s in root.findall("sort"):
             vals = []
             for kx in s.findall("k"):
@@ -976,6 +1015,29 @@ def stylesheet_stream(ctx, api_cases, doc, limit):
     for b0 in range(0, len(sel), 250):
         process(sel[b0:b0 + 250], SORT_KEYS if b0 == 0 else [], "sheet%d" % (b0 // 250))
     return st
+
+
+FOCUS_EXPRS = [".", "*", "//a", "//b", "/r", "/", "..", "current()", "current()/*", "current()/..", "string-length(.)",
+               "string-length(//a)", "string-length(/)", "string-length(current())", "string-length(*)", "string(.)", "concat(., '')",
+               ". = 'AdaLovelace42'", "normalize-space(.)", "count(current()/*)", "current()/@a", "current() = .", "name(current())",
+               "sum(current()/@a)", "current()/@a + 1", "number(current()/@a)", "-current()/@a", "boolean(current()/@zz)",
+               "//c[. = current()//c]", "current()/@a > 1", "(current()/@a)", "current()/@a | current()/@id", "round(current()/@a)",
+               "string-length(current()/*)", "translate(., ' ', '_')", "substring(., 1, 3)", "contains(., ' ')", "starts-with(., ' ')",
+               "local-name(current()/*)", "c11:echo(current())", "c11:str(.)", "$rt + current()/@a", "not(current()/@a)"]
+FOCUS_CTXS = [("/", 0), ("/r/a", 0), ("/r/a", 1), ("//b", 0), ("//c", 1), ("/r/*", 1), ("/r/*", 3), ("//@a", 1)]
+
+
+def focus_cases():
+    """deterministic: expressions using current() and string-values of nodes with nested whitespace-only text, at contexts of
+    depth 0..3, on the plain document and on the whitespace document (strip-space active); current node != context node"""
+    res = []
+    i = 0
+    for di, doc in ((0, DOCS[0]), (len(DOCS) - 1, WS_DOC)):
+        for cx, k in FOCUS_CTXS:
+            for x in FOCUS_EXPRS:
+                i += 1
+                res.append((di, doc, cx, k, BUFS[i % len(BUFS)], E("raw", x, op=None)))
+    return res
 
 
 def corpus_cases():
@@ -1006,7 +1068,9 @@ def run(ctx):
     ok_c, out_c = ctx.translate("c11_caches")
     ok_k, out_k = ctx.translate("c11_token")
     ok_l, out_l = ctx.translate("c11_callers")
-    ok_t = ok_t and ok_c and ok_k and ok_l
+    ok_p, out_p = ctx.translate("c11_prologue")
+    ok_s, out_s = ctx.translate("c13_sites")       # C13's translator: its valueSitesFunnel table is reused (as C09 reuses C10's)
+    ok_t = ok_t and ok_c and ok_k and ok_l and ok_p and ok_s
     side = None
     sp = os.path.join(common.CACHE, "c11_dispatch.json")
     if ok_t and os.path.exists(sp):
@@ -1039,7 +1103,8 @@ def run(ctx):
     n_per_op, depth = (7, 2) if not ctx.thorough else (40, 3)
     bcases = boundary_cases(ctx.thorough)
     ctx.extra["boundary_cases"] = len(bcases)
-    cases = corpus_cases() + bcases + build_cases(r, n_per_op, depth, docs)
+    cases = corpus_cases() + bcases + focus_cases() + build_cases(r, n_per_op, depth, docs)
+    cases.sort(key=lambda c: c[0])
     if incoh or not lean_ok:
         # model-guided search (DESIGN §3.3): more witnesses with the named op codes at the root, every supplied string
         r2 = Rng(ctx.seed + 7919)
@@ -1054,17 +1119,22 @@ def run(ctx):
                         cases.append((0, DOCS[0], cx, k, buf, gen_top(r2, opkey, r2.below(2))))
         cases.sort(key=lambda c: c[0])
     st = run_cases(ctx, hexe, mexe, cases, side, "main")
-    api_cases = st.pop("api", [])
+    api_cases = st.pop("api", {})
     ctx.extra["stream"] = {k: (v if not isinstance(v, list) else len(v)) for k, v in st.items()}
     # the same expressions through a stylesheet: ElemVariable (generic), ElemIf/ElemChoose (bool), AVTPartXPath (string),
-    # ElemValueOf (events), ElemNumber/NodeSorter (number), ElemForEach (node list); literals are XToken-backed objects there
-    sh = stylesheet_stream(ctx, api_cases, DOCS[0], 900 if not ctx.thorough else 6000)
+    # ElemValueOf (events), ElemNumber/NodeSorter (number), ElemForEach (node list); literals are XToken-backed objects there;
+    # once on the plain document and once on the whitespace document under xsl:strip-space
+    sh = {"cases": 0, "errors": [], "cross": [], "viol": 0, "sort": 0, "sort_bad": []}
+    for sd in SHEET_DOCS:
+        one = stylesheet_stream(ctx, api_cases.get(sd, []), sd, (600 if sd is DOCS[0] else 450) if not ctx.thorough else 4000)
+        for k2, v2 in one.items():
+            sh[k2] = sh[k2] + v2
     ctx.extra["stylesheet_stream"] = {k: (v if not isinstance(v, list) else len(v)) for k, v in sh.items()}
     ctx.oblige("stylesheet stream: every selected expression evaluates in the stylesheet as it did through the API (no transformation error)",
                "correspondence", not sh["errors"], json.dumps(sh["errors"][:3])[:1500])
     ctx.oblige("stylesheet stream: string()/boolean() of the generic value in the stylesheet (m_inStylesheet) = through the XPath API",
                "correspondence", not sh["cross"], json.dumps(sh["cross"][:3])[:1500])
-    ctx.oblige("stylesheet stream is not vacuous (>= 300 cases, >= 10 sort keys)", "coverage", sh["cases"] >= 300 and sh["sort"] >= 10,
+    ctx.oblige("stylesheet stream is not vacuous (>= 300 cases, >= 10 sort keys)", "coverage", sh["cases"] >= 300 and sh["sort"] >= 20,
                str({k: v for k, v in sh.items() if not isinstance(v, list)}))
     if mexe:
         ctx.oblige("correspondence: six real entry points = table-driven Lean interpreter (evalAs Generated.table) on every generated case",
@@ -1116,9 +1186,8 @@ def replay(ctx, path):
         return 1 if bad else 0
     hexe = common.build_harness("c11_entrypoints", ["c11_entrypoints.cpp"], flavor="hooks")
     H = Harness(hexe)
-    H.ask("doc " + hx8(inp["doc"]))
-    for vl in VAR_LINES:
-        H.ask(vl)
+    for pl in prelude(inp["doc"]):
+        H.ask(pl)
     if inp.get("case_lines"):
         reps = H.ask_many(list(inp.get("history", [])) + list(inp["case_lines"]))
         line = reps[-1]
